@@ -93,6 +93,31 @@ def variant_cases():
                       'kinds': project.native(ig)['kinds'] if ig is not None else [], 'parent_kinds': project.native(sg)['kinds'] if sg is not None else [],
                       'base_kinds': project.native(g)['kinds'], 'uses_qubits': bool(ig is not None and len(list(ig.used_qubits)) > 0),
                       'unitary': bool(ig is not None and ig.ideal_unitary is not None), 'text': 'stretched_gates(add_idle_gates): ' + name})
+    # a definition that has already been called is stretched, and the stretched definition is called: positional and
+    # keyword calls with well-typed arguments (stretch factor last) must both be accepted and agree
+    from jaqalpaq.core.register import Register
+    reg = Register('r', 4)
+    for name, g in gates.active_gates().items():
+        vals, nq = [], 0
+        for p in g.parameters:
+            if p.kind.name == 'QUBIT':
+                vals.append(reg[nq])
+                nq += 1
+            else:
+                vals.append(2 if p.kind.name == 'INT' else 1.5)
+        first, _ = outcome(lambda: g(*vals))
+        o2, st2 = outcome(lambda: stretched_gates({name: g}, suffix='_st'))
+        sg = st2.get(name + '_st') if st2 else None
+        c = {'id': 'stretch_call/' + name, 'kind': 'stretch_call', 'name': name, 'parent_call': first['cls'], 'has': sg is not None,
+             'pos': {'cls': 'missing'}, 'kw': {'cls': 'missing'}, 'same': False, 'short': {'cls': 'missing'},
+             'text': 'call %s positionally, stretch it, call %s_st' % (name, name)}
+        if sg is not None:
+            names = [p.name for p in sg.parameters]
+            c['pos'], gp = outcome(lambda: sg(*(vals + [0.5])))
+            c['kw'], gk = outcome(lambda: sg(**dict(zip(names, vals + [0.5]))))
+            c['short'], _ = outcome(lambda: sg(*vals))            # the parent's argument list: one argument too few
+            c['same'] = bool(gp is not None and gk is not None and gp == gk)
+        cases.append(c)
     active = gates.active_gates()
     o, st = outcome(lambda: stretched_gates(active, suffix='_st'))
     for name, g in active.items():
